@@ -1,5 +1,5 @@
 (** Model of pint's PromQL label-flow analyser, internal/parser/utils/source.go, as the code is NOW
-    (after fixes c0db6fa, f3c0f95, 392e95a, 78dbe66, 5b88941): [walk_node] and every transfer function, [can_have_label], [can_join],
+    (after fixes c0db6fa, f3c0f95, 392e95a, 78dbe66, 5b88941, 06b3093): [walk_node] and every transfer function, [can_have_label], [can_join],
     [calculate_static_return], and the two consumers (alerts/template label check, promql/impossible).
 
     Not modelled (message-only data): ExcludeReason texts/fragments, Position/IsDeadPosition, IsDeadReason text
@@ -155,19 +155,27 @@ Definition labels_with_empty_value_selector (ms : list matcher) : list string :=
                else if matchtype_eqb (m_type lm) MEq && String.eqb (m_value lm) "" then append_to_slice names [m_name lm]
                else names) ms [].
 
-(** absentLabels (fix 5b88941): the labels absent()/absent_over_time() copy to their result -- equality matchers with a
-    non-empty value of a plain (matrix) selector argument, unless the label name is matched more than once. *)
-Definition count_name (n : string) (ms : list matcher) : nat :=
-  List.length (filter (fun m => String.eqb (m_name m) n) ms).
+(** absentLabels (fixes 5b88941, 06b3093): the labels absent()/absent_over_time() copy to their result.  Parentheses
+    around the argument are unwrapped; for a plain (matrix) selector the matchers are walked in order exactly as the engine
+    does: the first equality matcher of a name sets the label (an empty value removes it), any other matcher of that name
+    removes it; the metric name is skipped.  Any other argument gives no labels. *)
+Fixpoint unwrap_parens (e : expr) : expr :=
+  match e with EParen e' => unwrap_parens e' | _ => e end.
 
-Definition absent_skip (ms0 : list matcher) (lm : matcher) : bool :=
-  String.eqb (m_name lm) metric_name || negb (matchtype_eqb (m_type lm) MEq) || String.eqb (m_value lm) ""
-  || Nat.ltb 1 (count_name (m_name lm) ms0).
+Definition absent_walk (acc : list string * list string) (lm : matcher) : list string * list string :=
+  let '(names, seen) := acc in
+  if String.eqb (m_name lm) metric_name then acc
+  else if matchtype_eqb (m_type lm) MEq && negb (mem_str (m_name lm) seen) then
+    if negb (String.eqb (m_value lm) "") then (append_to_slice names [m_name lm], m_name lm :: seen)
+    else (remove_from_slice names [m_name lm], m_name lm :: seen)
+  else (remove_from_slice names [m_name lm], seen).
 
 Definition absent_names (arg : option expr) : list string :=
-  match (match arg with Some (ESel ms) => Some ms | Some (EMatrix (ESel ms)) => Some ms | _ => None end) with
+  match (match arg with
+         | Some a => match unwrap_parens a with ESel ms => Some ms | EMatrix (ESel ms) => Some ms | _ => None end
+         | None => None end) with
   | None => []
-  | Some ms => fold_left (fun names lm => if absent_skip ms lm then names else append_to_slice names [m_name lm]) ms []
+  | Some ms => fst (fold_left absent_walk ms ([], []))
   end.
 
 (** Source.CanHaveLabel *)
